@@ -328,11 +328,25 @@ fn cast_array_by_name(
         if !cast_options.safe {
             ensure_temporal_array_timestamp_bounds(array, cast_type)?;
         }
-        Ok(kernels::cast::cast_with_options(
-            array,
-            cast_type,
-            cast_options,
-        )?)
+        match kernels::cast::cast_with_options(array, cast_type, cast_options) {
+            Ok(casted) => Ok(casted),
+            Err(e) => match array.data_type() {
+                // Arrow casts a dictionary array by casting all of its dictionary
+                // values, including values that no row refers to (for example
+                // after the rows referring to them were filtered out), so the
+                // cast can fail although every row can be cast.
+                // Retry with only the values that are actually used.
+                DataType::Dictionary(_, value_type)
+                    if !cast_options.safe
+                        && !matches!(cast_type, DataType::Dictionary(_, _)) =>
+                {
+                    let unpacked = kernels::cast::cast(array, value_type)?;
+                    kernels::cast::cast_with_options(&unpacked, cast_type, cast_options)
+                        .map_err(|_| e.into())
+                }
+                _ => Err(e.into()),
+            },
+        }
     }
 }
 
@@ -470,6 +484,34 @@ mod tests {
         array::{Date64Array, Int32Array, StructArray},
         datatypes::{Field, Fields, TimeUnit},
     };
+
+    #[test]
+    fn cast_dictionary_with_unused_values() {
+        use arrow::array::{DictionaryArray, Int64Array, StringArray};
+        use arrow::datatypes::Int32Type;
+
+        // The dictionary value 'a' can not be cast to Int64 but no row uses it
+        let values = StringArray::from(vec!["a", "1", "2"]);
+        let keys = Int32Array::from(vec![Some(1), None, Some(2), Some(1)]);
+        let dict = DictionaryArray::<Int32Type>::try_new(keys, Arc::new(values)).unwrap();
+        let value = ColumnarValue::Array(Arc::new(dict));
+
+        let casted = value.cast_to(&DataType::Int64, None).unwrap();
+        let ColumnarValue::Array(casted) = casted else {
+            panic!("expected array")
+        };
+        let expected: ArrayRef =
+            Arc::new(Int64Array::from(vec![Some(1), None, Some(2), Some(1)]));
+        assert_eq!(&casted, &expected);
+
+        // a row that uses the value still fails
+        let values = StringArray::from(vec!["a", "1", "2"]);
+        let keys = Int32Array::from(vec![Some(1), Some(0)]);
+        let dict = DictionaryArray::<Int32Type>::try_new(keys, Arc::new(values)).unwrap();
+        let value = ColumnarValue::Array(Arc::new(dict));
+        let err = value.cast_to(&DataType::Int64, None).unwrap_err();
+        assert!(err.to_string().contains("Cannot cast string 'a'"), "{err}");
+    }
 
     #[test]
     fn into_array_of_size() {
